@@ -1,3 +1,428 @@
 package main
 
-func runCheck(repo, verif, prop, tier string, timeout, par int, keep bool) int { return 2 }
+import (
+	"encoding/json"
+	"fmt"
+	"os"
+	"path/filepath"
+	"sort"
+	"strconv"
+	"strings"
+	"time"
+)
+
+type KnownFinding struct {
+	Property   string `json:"property"`
+	Obligation string `json:"obligation"`
+	Class      string `json:"class,omitempty"`
+	What       string `json:"what"`
+}
+
+type KnownFile struct {
+	Findings []KnownFinding `json:"findings"`
+	Fixed    []string       `json:"fixed"`
+}
+
+func loadKnown(verif string) (*KnownFile, error) {
+	kf := &KnownFile{}
+	b, err := os.ReadFile(filepath.Join(verif, "known_findings.json"))
+	if err != nil {
+		if os.IsNotExist(err) {
+			return kf, nil
+		}
+		return nil, err
+	}
+	if err := json.Unmarshal(b, kf); err != nil {
+		return nil, fmt.Errorf("known_findings.json: %v", err)
+	}
+	return kf, nil
+}
+
+func contains(xs []string, x string) bool {
+	for _, y := range xs {
+		if y == x {
+			return true
+		}
+	}
+	return false
+}
+
+func contractServes(c *Contract, prop string) bool {
+	if contains(c.Props, prop) {
+		return true
+	}
+	for _, cl := range c.Ensures {
+		if contains(cl.Props, prop) {
+			return true
+		}
+	}
+	for _, ls := range c.Loops {
+		for _, cl := range ls.Invariants {
+			if contains(cl.Props, prop) {
+				return true
+			}
+		}
+	}
+	return false
+}
+
+type replayFile struct {
+	Property   string                 `json:"property"`
+	Obligation string                 `json:"obligation"`
+	Kind       string                 `json:"kind"`
+	Function   string                 `json:"function"`
+	Position   string                 `json:"position,omitempty"`
+	Goal       string                 `json:"goal,omitempty"`
+	Verdict    string                 `json:"verdict"`
+	Solver     string                 `json:"solver"`
+	SMTFile    string                 `json:"smt_file,omitempty"`
+	Output     string                 `json:"verifier_output"`
+	Replay     *ReplayOutcome         `json:"replay,omitempty"`
+	Confirmed  bool                   `json:"confirmed_on_real_code"`
+	Note       string                 `json:"note,omitempty"`
+	Extra      map[string]interface{} `json:"extra,omitempty"`
+}
+
+func runCheck(repo, verif, prop, tier string, timeout, par int, keep bool) int {
+	start := time.Now()
+	seed := 0
+	if s := os.Getenv("VERIF_SEED"); s != "" {
+		seed, _ = strconv.Atoi(s)
+	}
+	if timeout == 0 {
+		timeout = 20
+		if tier == "thorough" {
+			timeout = 90
+		}
+	}
+	evPath := filepath.Join(verif, "evidence", prop+".json")
+	os.MkdirAll(filepath.Join(verif, "evidence", "replay"), 0o755)
+	os.Remove(evPath)
+	broken := func(msg string) int {
+		fmt.Printf("BROKEN property=%s %s\n", prop, msg)
+		return 2
+	}
+	known, err := loadKnown(verif)
+	if err != nil {
+		return broken(err.Error())
+	}
+	violations := 0
+	var lines []string
+	report := func(rf *replayFile, suffix string) {
+		violations++
+		name := fmt.Sprintf("%s-%s.json", prop, mangle(truncate(rf.Obligation, 100)))
+		p := filepath.Join(verif, "evidence", "replay", name)
+		b, _ := json.MarshalIndent(rf, "", " ")
+		os.WriteFile(p, b, 0o644)
+		l := fmt.Sprintf("VIOLATION property=%s replay=%s", prop, p)
+		if suffix != "" {
+			l += " " + suffix
+		}
+		lines = append(lines, l)
+		fmt.Println(l)
+	}
+	cs, _, err := loadRepoContracts(repo)
+	if err != nil {
+		// a contract file that no longer parses: the property can no longer be shown
+		report(&replayFile{Property: prop, Obligation: "contracts#engine:parse", Kind: "engine", Verdict: "engine-error", Output: err.Error()}, "no-failing-input-found")
+		writeEvidence(evPath, prop, tier, seed, nil, nil, nil, known, time.Since(start).Seconds(), violations, "")
+		return 1
+	}
+	pats := contractPackages(repo, cs, func(c *Contract) bool { return contractServes(c, prop) })
+	if len(pats) == 0 {
+		return broken("no contract serves this property")
+	}
+	w, err := loadWorkspace(repo, verif, pats)
+	if err != nil {
+		report(&replayFile{Property: prop, Obligation: "workspace#engine:load", Kind: "engine", Verdict: "engine-error", Output: err.Error()}, "no-failing-input-found")
+		writeEvidence(evPath, prop, tier, seed, nil, nil, nil, known, time.Since(start).Seconds(), violations, "")
+		return 1
+	}
+	w.known = known
+	var ks []string
+	for k, c := range w.contracts {
+		if contractServes(c, prop) && !c.Trusted {
+			ks = append(ks, k)
+		}
+	}
+	sort.Strings(ks)
+	var results []*FuncResult
+	for _, k := range ks {
+		r := w.verifyFunction(k, w.contracts[k])
+		// keep only the obligations of this property
+		var mine []*Obligation
+		for _, o := range r.Obls {
+			if contains(o.Props, prop) {
+				mine = append(mine, o)
+			}
+		}
+		r.Obls = mine
+		results = append(results, r)
+	}
+	outDir := filepath.Join(verif, "out", prop+"-"+tier)
+	os.RemoveAll(outDir)
+	solveAll(outDir, results, timeout, par)
+
+	// baseline of contract-derived obligations
+	missing := checkBaseline(verif, prop, results)
+
+	var claimed, discharged, vacuityOK, vacuityUnknown int
+	var solverTime float64
+	bySolver := map[string]int{}
+	var knownHit []string
+	knownByObl := map[string]KnownFinding{}
+	for _, k := range known.Findings {
+		if k.Property == prop {
+			knownByObl[k.Obligation] = k
+		}
+	}
+	isBroken := ""
+	scratch := os.Getenv("VERIF_SCRATCH")
+	if scratch == "" {
+		scratch = "/var/tmp/verif-scratch"
+	}
+	scratch = filepath.Join(scratch, fmt.Sprintf("%s-%d", prop, os.Getpid()))
+	defer os.RemoveAll(scratch)
+	for _, r := range results {
+		// a satisfiable canary implies that the exit is reachable
+		canarySat := false
+		for _, o := range r.Obls {
+			if o.Kind == "canary" && o.Verdict == "sat" {
+				canarySat = true
+			}
+		}
+		if canarySat {
+			for _, o := range r.Obls {
+				if o.Kind == "cover" && o.Verdict == "unknown" {
+					o.Verdict, o.Solver = "sat", "implied-by-canary"
+				}
+			}
+		}
+		if r.Err != "" {
+			report(&replayFile{Property: prop, Obligation: r.Key + "#engine:unsupported", Kind: "engine", Function: r.Key, Verdict: "engine-error", Output: r.Err,
+				Note: "the obligations of this function can no longer be generated, so the property can no longer be shown"}, "no-failing-input-found")
+			continue
+		}
+		for _, o := range r.Obls {
+			solverTime += o.Time
+			if o.ExpectSat {
+				switch o.Verdict {
+				case "sat":
+					vacuityOK++
+				case "unsat":
+					isBroken = fmt.Sprintf("vacuity guard %s is unsatisfiable: the contract of %s excludes every execution", o.Name, r.Key)
+				default:
+					vacuityUnknown++
+				}
+				continue
+			}
+			outside := strings.HasSuffix(o.Label, "!outside_known")
+			if kfnd, ok := knownByObl[o.Name]; ok && !outside {
+				if o.Verdict == "unsat" {
+					// the finding no longer reproduces (repaired): counts as a normal discharged obligation
+					claimed++
+					discharged++
+					bySolver[o.Solver]++
+					continue
+				}
+				l := fmt.Sprintf("KNOWN-FINDING: property=%s %s [%s]", prop, kfnd.What, o.Name)
+				fmt.Println(l)
+				knownHit = append(knownHit, o.Name)
+				continue
+			}
+			claimed++
+			switch o.Verdict {
+			case "unsat":
+				discharged++
+				bySolver[o.Solver]++
+				if !keep && o.File != "" {
+					os.Remove(o.File)
+				}
+			case "sat":
+				rf := &replayFile{Property: prop, Obligation: o.Name, Kind: o.Kind, Function: r.Key, Position: o.Pos, Goal: o.GoalSrc, Verdict: "sat (counterexample)", Solver: o.Solver, SMTFile: o.File, Output: o.Output}
+				ro := w.genericReplay(r, o, scratch)
+				rf.Replay = ro
+				if ro.Confirmed {
+					rf.Confirmed = true
+					report(rf, "")
+				} else {
+					report(rf, "no-failing-input-found")
+				}
+			default:
+				rf := &replayFile{Property: prop, Obligation: o.Name, Kind: o.Kind, Function: r.Key, Position: o.Pos, Goal: o.GoalSrc, Verdict: o.Verdict + " (undecided: no solver discharged the obligation)", Solver: o.Solver, SMTFile: o.File, Output: o.Output}
+				report(rf, "no-failing-input-found")
+			}
+		}
+	}
+	for _, m := range missing {
+		report(&replayFile{Property: prop, Obligation: m + "#engine:missing", Kind: "engine", Verdict: "engine-error", Output: "obligation " + m + " is part of the committed baseline of this property but was not generated on this tree (contract removed or function renamed)"}, "no-failing-input-found")
+	}
+	if isBroken != "" {
+		writeEvidence(evPath, prop, tier, seed, results, bySolver, knownHit, known, time.Since(start).Seconds(), violations, isBroken)
+		return broken(isBroken)
+	}
+	ev := writeEvidence(evPath, prop, tier, seed, results, bySolver, knownHit, known, time.Since(start).Seconds(), violations, "")
+	fmt.Printf("property=%s tier=%s functions=%d obligations=%d discharged=%d known_findings=%d vacuity_checks_ok=%d vacuity_undecided=%d violations=%d solver_time=%.1fs wall=%.1fs\n",
+		prop, tier, len(results), claimed, discharged, len(knownHit), vacuityOK, vacuityUnknown, violations, solverTime, time.Since(start).Seconds())
+	_ = ev
+	if claimed == 0 {
+		return broken("no obligation was generated for this property")
+	}
+	if violations > 0 {
+		return 1
+	}
+	return 0
+}
+
+// checkBaseline compares the contract-derived obligations with the committed baseline.
+func checkBaseline(verif, prop string, results []*FuncResult) []string {
+	b, err := os.ReadFile(filepath.Join(verif, "props", "baseline.json"))
+	if err != nil {
+		return nil
+	}
+	var base map[string][]string
+	if json.Unmarshal(b, &base) != nil {
+		return nil
+	}
+	have := map[string]bool{}
+	for _, r := range results {
+		if r.Err != "" {
+			// already reported as an engine failure of the whole function
+			for _, want := range base[prop] {
+				if strings.HasPrefix(want, r.Key+"#") {
+					have[want] = true
+				}
+			}
+		}
+		for _, o := range r.Obls {
+			have[o.Name] = true
+		}
+	}
+	var missing []string
+	for _, want := range base[prop] {
+		if !have[want] {
+			missing = append(missing, want)
+		}
+	}
+	return missing
+}
+
+func writeEvidence(path, prop, tier string, seed int, results []*FuncResult, bySolver map[string]int, knownHit []string, known *KnownFile, wall float64, violations int, brokenMsg string) map[string]interface{} {
+	var obligations, discharged int
+	var samples []interface{}
+	var funcs []interface{}
+	trusted := map[string]bool{}
+	assumes := map[string]bool{}
+	unmod := map[string]bool{}
+	var bounded []interface{}
+	var perObl []interface{}
+	var solverTime float64
+	vacuity := map[string]int{}
+	knownSet := map[string]bool{}
+	for _, k := range knownHit {
+		knownSet[k] = true
+	}
+	for _, r := range results {
+		fe := map[string]interface{}{"function": r.Key, "obligations": len(r.Obls), "ssa_blocks": r.Blocks, "ssa_instructions": r.Instrs}
+		if r.Err != "" {
+			fe["engine_error"] = r.Err
+		}
+		if len(r.Inlined) > 0 {
+			fe["inlined_callees"] = r.Inlined
+		}
+		if len(r.Notes) > 0 {
+			fe["abstractions"] = r.Notes
+		}
+		funcs = append(funcs, fe)
+		for _, t := range r.Trusted {
+			trusted[t] = true
+		}
+		for _, t := range r.Assumes {
+			assumes[t] = true
+		}
+		for _, t := range r.Unmodelled {
+			unmod[t] = true
+		}
+		for _, o := range r.Obls {
+			solverTime += o.Time
+			if o.ExpectSat {
+				vacuity[o.Verdict]++
+				continue
+			}
+			if knownSet[o.Name] {
+				continue
+			}
+			obligations++
+			if o.Verdict == "unsat" {
+				discharged++
+			}
+			pe := map[string]interface{}{"name": o.Name, "kind": o.Kind, "verdict": o.Verdict, "solver": o.Solver, "time_s": round3(o.Time)}
+			if o.Bounded > 0 {
+				pe["bounded"] = o.Bounded
+				bounded = append(bounded, map[string]interface{}{"name": o.Name, "bound": o.Bounded})
+			}
+			perObl = append(perObl, pe)
+			if len(samples) < 4 && o.Kind != "cover" && o.GoalSrc != "" {
+				samples = append(samples, map[string]interface{}{"obligation": o.Name, "goal": o.GoalSrc, "at": o.Pos, "verdict": o.Verdict, "solver": o.Solver})
+			}
+		}
+	}
+	if len(samples) == 0 {
+		samples = append(samples, map[string]interface{}{"note": "no obligation generated"})
+	}
+	tb := []string{}
+	for t := range trusted {
+		tb = append(tb, "trusted contract: "+shortKey(t))
+	}
+	sort.Strings(tb)
+	var as []string
+	for a := range assumes {
+		as = append(as, a)
+	}
+	for u := range unmod {
+		as = append(as, "unmodelled call (havoc of everything reachable): "+shortKey(u))
+	}
+	as = append(as,
+		"A-ARITH: machine integers are mathematical integers with the type's range assumed for every value read; overflow is checked only in functions flagged `overflow`",
+		"A-PTR: pointer parameters of a function under contract are non-nil and pairwise non-aliased",
+		"A-DEP: cosmos-sdk / tendermint code meets the trusted prelude contracts listed under trusted_base",
+		"termination is not verified",
+	)
+	sort.Strings(as)
+	cov := map[string]interface{}{
+		"obligations":              obligations,
+		"discharged":               discharged,
+		"checker_cmd":              fmt.Sprintf("/verif/bin/govc check -prop %s -tier %s  (VCs generated from go/ssa of /repo's working tree; each obligation raced on z3-new 5.1.0, z3 4.8.12, cvc5 1.0)", prop, tier),
+		"trusted_base":             tb,
+		"samples":                  samples,
+		"functions_under_contract": funcs,
+		"discharged_by_solver":     bySolver,
+		"solver_time_s":            round3(solverTime),
+		"per_obligation":           perObl,
+		"vacuity_guards":           vacuity,
+		"bounded_obligations":      bounded,
+		"known_findings_hit":       knownHit,
+		"integers":                 "mathematical (SMT Int) with machine ranges as assumptions",
+	}
+	if brokenMsg != "" {
+		cov["broken"] = brokenMsg
+	}
+	ev := map[string]interface{}{
+		"property_id": prop,
+		"tier":        tier,
+		"seed":        seed,
+		"level":       "proof",
+		"coverage":    cov,
+		"assumptions": as,
+		"wall_s":      round3(wall),
+		"violations":  violations,
+	}
+	b, _ := json.MarshalIndent(ev, "", " ")
+	os.MkdirAll(filepath.Dir(path), 0o755)
+	os.WriteFile(path, b, 0o644)
+	return ev
+}
+
+func round3(f float64) float64 {
+	return float64(int(f*1000+0.5)) / 1000
+}
